@@ -199,13 +199,13 @@ def _same(a, b):
 
 
 class SpyFitter:
-    def __init__(self, inner, log, name):
-        self.inner, self.log, self.name = inner, log, name
+    def __init__(self, inner, log, name, role='supplied'):
+        self.inner, self.log, self.name, self.role = inner, log, name, role
 
     def __call__(self, model, data, method='cosine', pattern_idx=None, pattern_descriptor=None, sigma_k=None):
         ent = {'fn': 'fitter', 'model': model.name, 'model_obj': model, 'data': data, 'method': method,
                'pattern_idx': None if pattern_idx is None else normlist(pattern_idx),
-               'pattern_descriptor': pattern_descriptor, 'pos': len(self.log)}
+               'pattern_descriptor': pattern_descriptor, 'pos': len(self.log), 'role': self.role}
         self.log.append(ent)
         theta = self.inner(model, data, method=method, pattern_idx=pattern_idx,
                            pattern_descriptor=pattern_descriptor, sigma_k=sigma_k)
@@ -230,8 +230,13 @@ def _build_models(plan, log):
         inner = {'mock': fit_mock, 'select': fit_select, 'interpolate': fit_interpolate, 'regress': fit_regress,
                  'ridge': Fitter(fit_regress, ridge_weight=0.3)}[mp['fitter']]
         spy = SpyFitter(inner, log, mp['fitter'])
-        m.default_fitter = spy
+        if mp.get('via_default'):
+            m.default_fitter = spy
+        else:
+            # a fitter handed to the routine must be the one that fits: the model keeps its own default (observed too)
+            m.default_fitter = SpyFitter(m.default_fitter, log, 'model-default', role='default')
         ref.model = m
+        ref.supplied = not mp.get('via_default')
         models.append(m)
         fitters.append(None if mp.get('via_default') else spy)
         refs.append(ref)
@@ -341,6 +346,11 @@ def check_crossval_call(ctx, plan, ent, refs, tabs, routine):
                 return
             e = mine[0]
             used.add(id(e))
+            if getattr(ref, 'supplied', False) and e.get('role') == 'default':
+                ctx.violation('eval_ref.fit_input', f'{routine}:crossval:supplied-fitter-not-used',
+                              f'{routine}: fold {f}, model {ref.name}: the parameters come from the model\'s default fitter although '
+                              f'a fitter was handed to the routine for it')
+                return
             if e['pattern_idx'] != normlist(tr[1]) or e['pattern_descriptor'] != pdesc or e['method'] != method:
                 ctx.violation('eval_ref.fit_input', f'{routine}:crossval:fit-args',
                               f'{routine}: fold {f}, model {ref.name}: fitter got pattern_idx {e["pattern_idx"]} '
